@@ -35,6 +35,13 @@ MCArgs(name, h, dep) ==
                                 \cup (IF n >= 2 THEN {[obj |-> "a", weights |-> WGen1(n - 1)]} ELSE {})
     [] name = "CvSetKnotvector" -> {[obj |-> "a", kv |-> SortedUnion(U, <<x>>)] : x \in Midpoints(U)}
                                    \cup {[obj |-> "a", kv |-> ShiftKV(U, One).kv]}
+    [] name = "CvApply" ->
+         LET Id(r, k) == [i \in 1..r |-> [j \in 1..k |-> IF i = j THEN One ELSE Zero]]
+             Revm(k) == [i \in 1..k |-> [j \in 1..k |-> IF i + j = k + 1 THEN One ELSE Zero]]
+             Avg(k) == [i \in 1..k |-> [j \in 1..k |-> IF j = i THEN Half ELSE IF j = (i % k) + 1 THEN Half ELSE Zero]] IN
+         {[obj |-> "a", kv |-> U, matrix |-> m] : m \in {Revm(n), Avg(n), Id(n - 1, n), Id(n, n + 1), Id(n + 1, n)} \ {<<>>}}
+         \cup {[obj |-> "a", kv |-> ShiftKV(U, One).kv, matrix |-> Revm(n)]}
+         \cup {[obj |-> "a", kv |-> SetDegreeKV(U, Deg(U) + 1).kv, matrix |-> Id(n, n)]}
     [] name = "CvEval" -> {[obj |-> "a", nodes |-> SeqOfSet(ParamGrid(U, 0)), scalar |-> FALSE, form |-> "tuple"],
                            [obj |-> "a", nodes |-> <<Add(Umax(U), One)>>, scalar |-> TRUE]}
     [] name = "CvSplit" -> {[obj |-> "a", nodes |-> <<x>>, form |-> "nodes"] : x \in Midpoints(U)}
@@ -46,7 +53,7 @@ MCArgs(name, h, dep) ==
     [] name = "CvFraction" -> {[obj |-> "a"]}
     [] name = "CvDerivate" -> {[obj |-> "a"]}
     [] name = "CvIntegrate" -> IF h["a"].W = <<>> THEN {[obj |-> "a", method |-> "default", nnodes |-> 0]} ELSE {}
-    [] name = "CvFitCurve" -> {[obj |-> "b", other |-> AsCurve(h["a"]), nodes |-> <<>>]}   \* fitting ANOTHER curve to a: a is only read
+    [] name = "CvFitCurve" -> IF Limits(h["b"].U) # Limits(U) THEN {} ELSE {[obj |-> "b", other |-> AsCurve(h["a"]), nodes |-> <<>>]}   \* fitting ANOTHER curve to a: a is only read
     [] name = "CvJoin" -> {[obj |-> "a", other |-> [Other(U) EXCEPT !.U = ShiftKV(U, Sub(Umax(U), Umin(U))).kv]],
                            [obj |-> "a", other |-> Other(U)]}
     [] OTHER -> {}
